@@ -24,7 +24,7 @@ func init() {
 	register("C08", "exploration", runC08, replayC08)
 }
 
-var c08Paths = []string{"a.b/x", "c.d/x", "e.f/x", "g/y", "h/y", "fmt", "math/rand", "crypto/rand", "os", "k/type", "n/any", "C", "r/d", "s/d", "my/local", "t/init", "u/pk_x"}
+var c08Paths = []string{"a.b/x", "c.d/x", "e.f/x", "g/y", "h/y", "fmt", "math/rand", "crypto/rand", "os", "k/type", "n/any", "C", "r/d", "s/d", "my/local", "t/init", "u/pk_x", "github.com/a/b/vendor/github.com/pkg/errors", "v.w/strs"}
 var c08Aliases = []string{"x", "y", "zz", "rand", "d", ".", "x1", "fmt", "pk_x", "y1"}
 
 type hEvent struct {
@@ -101,7 +101,7 @@ func checkHistory(evs []hEvent, localPath string) []string {
 		switch e.Op {
 		case "Add":
 			dirtyAll(true)
-		case "ImportName", "ImportAlias", "ImportNames", "Anon", "Prefix":
+		case "ImportName", "ImportAlias", "ImportNames", "Anon", "Prefix", "CgoPreamble":
 			dirtyAll(false)
 		}
 		switch e.Op {
@@ -293,6 +293,10 @@ func c08Execute(rnd *rand.Rand) *c08Run {
 				g := groups[e.Target]
 				_, e.Err = failing(func(w io.Writer) error { return g.RenderWithFile(w, f) })
 			}
+		case k == 11 && rnd.Intn(3) == 0: // a cgo preamble added late (possibly after "C" was already rendered in the common block)
+			pre := []string{"#include <a.h>", "#include <b.h>\nvoid f() {}\n"}[rnd.Intn(2)]
+			e.Op, e.Arg = "CgoPreamble", strconv.Quote(pre)
+			f.CgoPreamble(pre)
 		case k == 13: // File.GoString: one more way in which names appear in an output produced with the File
 			e.Op, e.Via = "FileRender", "GoString"
 			e.Out, e.Err = viaGoString(func() string { return f.GoString() })
